@@ -1,5 +1,6 @@
 import IpaVerif.Props.C16
 import IpaVerif.Model.BatcherAtomic
+import IpaVerif.Proofs.BatcherAccept
 /-!
 # C16 — one validator, many threads calling `validate_record`: exactly one of them validates each batch
 
@@ -11,9 +12,10 @@ interleaving of their atomic steps:
   `release_after_whole_batch`, `misuse_is_loud`, … speak about the concurrent execution too);
 * `at_most_one_validator` — no batch is answered `Ready::Yes` (taken out and handed to the validation closure) twice,
   whatever the calls are (legitimate or not);
-* `exactly_one_validator_partial` — … and a batch all of whose records were asked for by accepted calls was answered
-  `Ready::Yes` exactly once. (Partial: "every call for a distinct record below the total is accepted" is a hypothesis
-  here — `hacc` — not derived from the model; the full statement is in the comment above the theorem.)
+* `exactly_one_validator` — … and with pairwise different records below the total, a batch all of whose records are asked for
+  by calls scheduled at least once is answered `Ready::Yes` EXACTLY once. Acceptance of every such call is derived from the
+  model (`Batcher.validate_accepts`, `Proofs/BatcherAccept.lean`; invariant `Legit` of the interleaved run);
+  `exactly_one_validator_partial` is the step with acceptance as a hypothesis, kept as a lemma under its old name.
 * `code_validate_is_atomic` — the generated constants select the atomic step;
 * `split_two_validators` (`decide`) — check-then-act (note the request under one guard, compare the count under another): with
   two callers of a two-record batch scheduled note₀ note₁ decide₀ decide₁ BOTH see "ready"; atomic: exactly one; back to back
@@ -108,11 +110,9 @@ theorem at_most_one_validator (n rpb : Nat) (t0 : Total) (tps : Nat) (hp : 0 < r
   rw [← h] at hn
   simpa [ghostOf] using hn
 
-/- Full statement (`exactly_one_validator`): total `n` specified, the calls `c < k` ask for pairwise different records
-`recOf c < n`, every record `< n` of batch `b` is asked for by some call, every call is scheduled at least once ⟹ exactly one
-call is answered `Ready::Yes` for `b`. Missing for it: "a call for a not yet requested record below the total of a batch that
-is not closed is accepted" as a lemma about `validateRecord` (the correspondence suites `c16_batcher` — all permutations —
-and `c16_race` observe it); it is the hypothesis `hacc` below. -/
+/- Full statement: `exactly_one_validator` further down (total `n` specified, the calls `c < k` ask for pairwise different
+records `recOf c < n`, every record `< n` of batch `b` is asked for by some call scheduled at least once ⟹ exactly one call is
+answered `Ready::Yes` for `b`). The step below takes acceptance as the hypothesis `hacc`; `validate_accepts` discharges it. -/
 
 /-- **exactly_one_validator_partial.** Setting as in `at_most_one_validator`, total `n`; batch `b` exists; every record
 `< n` of `b` is the record of some call that took effect and was accepted (`hacc`): then `b` was answered `Ready::Yes`
@@ -139,6 +139,149 @@ theorem exactly_one_validator_partial (n rpb : Nat) (t0 : Total) (tps : Nat) (hp
   have h1 := List.nodup_iff_count.mp hnd b
   have h2 := List.count_pos_iff.mpr hmem
   omega
+
+/-! ### the full statement: `hacc` derived (`Proofs/BatcherAccept.lean`: `validate_accepts`) -/
+
+/-- invariant of an interleaved run all of whose calls are legitimate (distinct records below the total) -/
+structure Legit (n rpb k : Nat) (recOf : Nat → Nat) (t : TState) : Prop where
+  inv : Inv n t.s (ghostOf recOf {} t)
+  tot : t.s.total = .specified n
+  rpb : t.s.rpb = rpb
+  done_lt : ∀ c, c ∈ t.done → c < k
+  acc_done : ∀ r, r ∈ accepted recOf t.outs → ∃ c, c ∈ t.done ∧ recOf c = r
+  done_acc : ∀ c, c ∈ t.done → recOf c ∈ accepted recOf t.outs
+
+theorem accepted_cons (recOf : Nat → Nat) (c : Nat) (o : VOut) (outs : List (Nat × VOut)) (h : o.isAccepted = true) :
+    accepted recOf ((c, o) :: outs) = recOf c :: accepted recOf outs := by
+  cases o <;> simp_all [accepted, VOut.isAccepted]
+
+theorem legit_step {n rpb k : Nat} {recOf : Nat → Nat} (hlt : ∀ c, c < k → recOf c < n)
+    (hinj : ∀ c c', c < k → c' < k → recOf c = recOf c' → c = c') {t : TState} (hL : Legit n rpb k recOf t) (c : Nat) :
+    Legit n rpb k recOf (atomicStep k recOf t c) := by
+  by_cases hc : (t.done.contains c || decide (k ≤ c)) = true
+  · have hs : atomicStep k recOf t c = t := by simp only [atomicStep, hc, if_true]
+    rw [hs]; exact hL
+  · have hs : atomicStep k recOf t c = (⟨(validateRecord t.s (recOf c)).1, c :: t.done, (c, (validateRecord t.s (recOf c)).2) :: t.outs⟩ : TState) := by
+      simp only [atomicStep, hc]; rfl
+    rw [hs]
+    have hcd : c ∉ t.done ∧ c < k := by
+      simp only [Bool.or_eq_true, List.contains_iff_mem, decide_eq_true_eq, not_or] at hc
+      exact ⟨hc.1, by omega⟩
+    have hp := hL.inv.rpb_pos
+    have hacc' : (ghostOf recOf {} t).acc = accepted recOf t.outs := by simp [ghostOf]
+    have hna : recOf c ∉ (ghostOf recOf {} t).acc := by
+      rw [hacc']
+      intro hm
+      obtain ⟨c', hc', e⟩ := hL.acc_done _ hm
+      have := hinj c' c (hL.done_lt c' hc') hcd.2 e
+      subst this
+      exact hcd.1 hc'
+    have hrn := hlt c hcd.2
+    have hnc : recOf c / t.s.rpb ∉ (ghostOf recOf {} t).closed := by
+      intro hm
+      obtain ⟨_, hall⟩ := hL.inv.closed_all _ hm
+      have h1 : recOf c / t.s.rpb * t.s.rpb + recOf c % t.s.rpb = recOf c := Nat.div_add_mod' _ _
+      have h2 : recOf c % t.s.rpb < t.s.rpb := Nat.mod_lt _ hp
+      have := hall (recOf c % t.s.rpb) (by unfold tcOf; omega)
+      rw [h1] at this
+      exact hna this
+    have ha := validate_accepts hL.inv hL.tot (recOf c) hrn hna hnc
+    refine ⟨?_, ?_, ?_, ?_, ?_, ?_⟩
+    · rw [ghost_step]
+      exact inv_stepOp hL.inv (.validate (recOf c)) (fun t m e => by cases e)
+    · show (validateRecord t.s (recOf c)).1.total = _
+      rw [validateRecord_total]; exact hL.tot
+    · show (validateRecord t.s (recOf c)).1.rpb = _
+      rw [validateRecord_rpb]; exact hL.rpb
+    · intro c' hc'
+      rcases List.mem_cons.1 hc' with h | h
+      · subst h; exact hcd.2
+      · exact hL.done_lt c' h
+    · intro r hr
+      show ∃ c', c' ∈ c :: t.done ∧ recOf c' = r
+      rw [show accepted recOf ((c, (validateRecord t.s (recOf c)).2) :: t.outs) = _ from accepted_cons recOf c _ t.outs ha] at hr
+      rcases List.mem_cons.1 hr with h | h
+      · exact ⟨c, List.mem_cons_self, h.symm⟩
+      · obtain ⟨c', h1, h2⟩ := hL.acc_done r h
+        exact ⟨c', List.mem_cons_of_mem _ h1, h2⟩
+    · intro c' hc'
+      show recOf c' ∈ accepted recOf ((c, (validateRecord t.s (recOf c)).2) :: t.outs)
+      rw [accepted_cons recOf c _ t.outs ha]
+      rcases List.mem_cons.1 hc' with h | h
+      · subst h; exact List.mem_cons_self
+      · exact List.mem_cons_of_mem _ (hL.done_acc c' h)
+
+theorem legit_run {n rpb k : Nat} {recOf : Nat → Nat} (hlt : ∀ c, c < k → recOf c < n)
+    (hinj : ∀ c c', c < k → c' < k → recOf c = recOf c' → c = c') : ∀ (sched : List Nat) (t : TState),
+    Legit n rpb k recOf t → Legit n rpb k recOf (run (atomicStep k recOf) t sched) := by
+  intro sched
+  induction sched with
+  | nil => intro t h; exact h
+  | cons c rest ih => intro t h; exact ih _ (legit_step hlt hinj h c)
+
+theorem done_mono (k : Nat) (recOf : Nat → Nat) : ∀ (sched : List Nat) (t : TState) (c : Nat),
+    c ∈ t.done → c ∈ (run (atomicStep k recOf) t sched).done := by
+  intro sched
+  induction sched with
+  | nil => intro t c h; exact h
+  | cons d rest ih =>
+    intro t c h
+    refine ih _ c ?_
+    unfold atomicStep
+    split
+    · exact h
+    · exact List.mem_cons_of_mem _ h
+
+/-- a call that is scheduled at least once has taken effect at the end -/
+theorem scheduled_done (k : Nat) (recOf : Nat → Nat) : ∀ (sched : List Nat) (t : TState) (c : Nat),
+    c ∈ sched → c < k → c ∈ (run (atomicStep k recOf) t sched).done := by
+  intro sched
+  induction sched with
+  | nil => intro t c h; cases h
+  | cons d rest ih =>
+    intro t c h hk
+    rcases List.mem_cons.1 h with e | e
+    · subst e
+      refine done_mono k recOf rest _ c ?_
+      unfold atomicStep
+      split
+      · rename_i hc
+        simp only [Bool.or_eq_true, List.contains_iff_mem, decide_eq_true_eq] at hc
+        rcases hc with hc | hc
+        · exact hc
+        · omega
+      · exact List.mem_cons_self
+    · exact ih _ c e hk
+
+/-- **exactly_one_validator** (full statement). A batcher for batches of `rpb > 0` records with total `n`; `k` concurrent
+calls `validate_record(recOf c)` for pairwise different records below the total; EVERY schedule of their atomic steps in which,
+for batch `b`, every record of `b` is asked for by a call that is scheduled at least once: batch `b` is answered
+`Ready::Yes` — taken out and handed to the validation closure — by EXACTLY one caller. Nothing about acceptance is assumed. -/
+theorem exactly_one_validator (n rpb tps : Nat) (hp : 0 < rpb) (k : Nat) (recOf : Nat → Nat) (sched : List Nat)
+    (hlt : ∀ c, c < k → recOf c < n)
+    (hinj : ∀ c c', c < k → c' < k → recOf c = recOf c' → c = c')
+    (b : Nat) (hb : b * rpb < n)
+    (hall : ∀ r, r < n → r / rpb = b → ∃ c, c < k ∧ recOf c = r ∧ c ∈ sched) :
+    (readyLog (run (atomicStep k recOf) (init (State.new rpb (.specified n) tps)) sched).outs).count b = 1 := by
+  refine exactly_one_validator_partial n rpb (.specified n) tps hp (Or.inl rfl) k recOf sched b hb ?_
+  intro r hr hrb
+  obtain ⟨c, hck, hcr, hcs⟩ := hall r hr hrb
+  have hg : ghostOf recOf {} (init (State.new rpb (.specified n) tps)) = {} := by simp [ghostOf, init, accepted, readyLog]
+  have hL0 : Legit n rpb k recOf (init (State.new rpb (.specified n) tps)) :=
+    ⟨by rw [hg]; exact inv_new n rpb tps hp _ (Or.inl rfl), rfl, rfl, (by intro c h; cases h),
+     (by intro r h; simp [init, accepted] at h), (by intro c h; cases h)⟩
+  have hL := legit_run hlt hinj sched _ hL0
+  have := hL.done_acc c (scheduled_done k recOf sched _ c hcs hck)
+  rw [hcr] at this
+  exact this
+
+/-- non-vacuity of `exactly_one_validator`: 5 records in batches of 2, five calls for the records 3,0,4,1,2, a schedule
+with repetitions and a foreign id — all hypotheses hold for every batch. -/
+example :
+    (∀ c, c < 5 → [3, 0, 4, 1, 2].getD c 9 < 5) ∧
+    (∀ c, c < 5 → ∀ c', c' < 5 → [3, 0, 4, 1, 2].getD c 9 = [3, 0, 4, 1, 2].getD c' 9 → c = c') ∧
+    (∀ r, r < 5 → ∃ c, c < 5 ∧ [3, 0, 4, 1, 2].getD c 9 = r ∧ c ∈ [4, 0, 0, 7, 2, 1, 3, 4]) := by
+  decide
 
 /-- the hypotheses are satisfiable, and on a concrete instance everything is computed: batches of 2, total 5, six call
 ids for the records 3,0,4,1,2 (+ a foreign id), scheduled with repetitions: every batch is answered `Ready::Yes` once. -/
